@@ -67,6 +67,14 @@ def load_known():
     return json.load(open(path)).get("findings", [])
 
 
+def _norm(x):
+    if isinstance(x, bool):
+        return "true" if x else "false"
+    if isinstance(x, float) and x == int(x):
+        return str(int(x))
+    return str(x)
+
+
 def pred_ok(pred, val):
     if isinstance(pred, dict):
         for op, ref in pred.items():
@@ -74,12 +82,12 @@ def pred_ok(pred, val):
             if op == "ge" and not (isinstance(val, (int, float)) and val >= ref): return False
             if op == "lt" and not (isinstance(val, (int, float)) and val < ref): return False
             if op == "le" and not (isinstance(val, (int, float)) and val <= ref): return False
-            if op == "in" and val not in ref: return False
+            if op == "in" and _norm(val) not in [_norm(x) for x in ref]: return False
             if op == "prefix" and not (isinstance(val, str) and val.startswith(ref)): return False
             if op == "contains" and not (isinstance(val, str) and ref in val): return False
             if op == "absent" and ref and val is not None: return False
         return True
-    return val == pred
+    return _norm(val) == _norm(pred)
 
 
 def match_known(v, known):
@@ -102,6 +110,7 @@ def run_shards(worker, prop, tier, seed, nshards, outdir, limit, extra_env=None,
     procs = []
     env = goenv()
     env.pop("GOFLAGS", None)
+    env["VERIF_KNOWN"] = os.path.join(VERIF, "known_findings.json")
     if extra_env:
         env.update(extra_env)
     for i in range(nshards):
